@@ -356,8 +356,10 @@ fn parse_layer(tok: &str) -> LayerSpec {
 }
 
 /// run one case: input tokens after `C19` -> observation
-pub fn observe(toks: &[&str], scratch: &Path) -> String {
+/// `min_reps`: a replay repeats at least that often (what a failing line shows depends on the schedule)
+pub fn observe(toks: &[&str], scratch: &Path, min_reps: usize) -> String {
     let reps: usize = toks.iter().find(|t| t.starts_with('r')).map(|t| t[1..].parse().unwrap()).unwrap_or(4);
+    let reps = reps.max(min_reps);
     let layers: Vec<LayerSpec> = toks.iter().filter(|t| t.starts_with("L:")).map(|t| parse_layer(t)).collect();
     let tree = scratch.join("tree.ufo");
     let out = scratch.join("out.ufo");
@@ -578,7 +580,7 @@ fn emit(out: &mut dyn Write, scratch: &Path, sseed: u64, reps: usize, layers: &[
     let mut input = vec!["C19".to_string(), format!("s{}", sseed), format!("r{}", reps)];
     input.extend(layers.iter().map(layer_tok));
     let toks: Vec<&str> = input.iter().map(|s| s.as_str()).collect();
-    let obs = observe(&toks[1..], scratch);
+    let obs = observe(&toks[1..], scratch, 0);
     writeln!(out, "{} => {}", input.join(" "), obs).unwrap();
 }
 
@@ -589,7 +591,7 @@ pub fn gen(tier: &str, seed: u64, out: &mut dyn Write) {
     }
     let mut rng = Rng::new(seed ^ 0xC19C19);
     let scratch = scratch();
-    let (reps, ntrees) = if tier == "thorough" { (500, 18) } else { (20, 30) };
+    let (reps, ntrees) = if tier == "thorough" { (500, 36) } else { (20, 30) };
     for t in 0..ntrees {
         let (glyphs, maxl) = match t % 6 {
             0 => (2 + rng.below(13), 4),
